@@ -13,13 +13,14 @@ import (
 
 // DataCfg parameterises the procedural data set.
 type DataCfg struct {
-	Seed     uint64 `json:"seed"`
-	PNull    int    `json:"pnull"`     // percent of nullable positions that are null
-	ListMax  int    `json:"list_max"`  // list lengths 0..ListMax
-	Pool     int    `json:"pool"`      // ids per entity type
-	Hostile  bool   `json:"hostile"`   // strings with quotes / unicode / control chars
-	IDStyle  int    `json:"id_style"`  // 0: T_n ; 1: T_n with ':' ; 2: with '#'
-	FixedLen int    `json:"fixed_len"` // >0: every list has exactly this length
+	Seed           uint64 `json:"seed"`
+	PNull          int    `json:"pnull"`                             // percent of nullable positions that are null
+	NoNullObjElems bool   `json:"no_null_object_elements,omitempty"` // elements of lists of objects are never null (keeps out of KF-C01-03's domain)
+	ListMax        int    `json:"list_max"`                          // list lengths 0..ListMax
+	Pool           int    `json:"pool"`                              // ids per entity type
+	Hostile        bool   `json:"hostile"`                           // strings with quotes / unicode / control chars
+	IDStyle        int    `json:"id_style"`                          // 0: T_n ; 1: T_n with ':' ; 2: with '#'
+	FixedLen       int    `json:"fixed_len"`                         // >0: every list has exactly this length
 }
 
 // Data is the procedural data function over the monolith schema.
@@ -57,6 +58,14 @@ func (d *Data) isEntity(def *ast.Definition) bool {
 		}
 	}
 	return false
+}
+
+func (d *Data) isComposite(t *ast.Type) bool {
+	if t.Elem != nil {
+		return false
+	}
+	def := d.Mono.Types[t.NamedType]
+	return def != nil && (def.Kind == ast.Object || def.Kind == ast.Interface || def.Kind == ast.Union)
 }
 
 func (d *Data) atRoot(base string) bool {
@@ -135,7 +144,9 @@ var hostileStrings = []string{
 
 func (d *Data) gen(t *ast.Type, h uint64, base string) any {
 	if !t.NonNull && int((h>>8)%100) < d.Cfg.PNull {
-		return nil
+		if !(d.Cfg.NoNullObjElems && strings.HasSuffix(base, "]") && d.isComposite(t)) {
+			return nil
+		}
 	}
 	if t.Elem != nil {
 		n := 0
